@@ -282,8 +282,8 @@ TRACE_CFG_CONSTS = {
     "RunKeys": {"", "k1", "k2"},
     "Streams": {"primary", "baseline", "interruptions", "mon1"},
     "Dets": {"det", "det2", "pdet", "apdet"}, "Motors": {"motor", "motor2", "amotor"}, "Mons": {"mon1"}, "Pausables": {"pdet", "apdet"}, "Flyers": set(),
-    "AsyncDevs": {"amotor", "apdet"},
-    "ReadVal": "<- ReadValDef", "DataKeys": "<- DataKeysDef", "FutNames": {"f1", "f2"},
+    "AsyncDevs": {"amotor", "apdet"}, "Suspenders": "<- XSus", "SigOf": "<- SigOfDef", "SusFuts": "<- SusFutsDef",
+    "ReadVal": "<- ReadValDef", "DataKeys": "<- DataKeysDef", "FutNames": {"f1", "f2", "s1a", "s1b", "s1c", "s1d", "s2a", "s2b", "s2c", "s2d"},
     "StreamOrder": "<- StreamOrderDef", "DevOrder": "<- DevOrderDef", "PlanLib": "<- PlanLibDef",
 }
 
@@ -487,7 +487,7 @@ def build_corpus(tier):
             key = key.rsplit("|", 1)[0]
         exp = base.get(key, []) if "|nori" not in r["id"] else base.get(key, [])
         out.append({"id": r["id"], "events": exp + r["events"], "outcomes": r["outcomes"], "final": r["final"],
-                    "conf": r["id"].split("|")[0] not in NOT_CONFORMANCE and not r["id"].startswith("sus:")
+                    "conf": r["id"].split("|")[0] not in NOT_CONFORMANCE
                             and not r["id"].startswith("rb") and not r["id"].startswith("mon|notify") and not r["id"].startswith("2call:") and "clear_sub:raise" not in r["id"]})
     return {"traces": out, "wall": time.time() - t0}
 
@@ -791,7 +791,7 @@ MC_BASE = {
 
 
 def mc_run(ctx, plan_name, *, max_req=2, req_kinds=REQ_KINDS, decisions=DECISIONS, max_faults=0, fault_kinds=(),
-           max_calls=1, max_updates=0, record_intr=True, pre=(), post=(), workers=None, timeout=1500, tag=None, async_devs=()):
+           max_calls=1, max_updates=0, record_intr=True, pre=(), post=(), workers=None, timeout=1500, tag=None, async_devs=(), suspenders=(), max_sus_ops=0):
     """model-check REMC for one program; returns (TLCResult, propviol list)"""
     p = PROGRAMS[plan_name]
     d = ctx.out
@@ -805,6 +805,9 @@ ReadValDef == [d \\in XD |-> CASE d = "motor" -> "dict:motor,motor_setpoint" [] 
 DataKeysDef == [d \\in XD |-> CASE d = "motor" -> {{"motor", "motor_setpoint"}} [] d = "amotor" -> {{"amotor", "amotor_setpoint"}} [] OTHER -> {{d}}]
 StreamOrderDef == <<"interruptions", "mon1", "primary">>
 DevOrderDef == <<"det", "det2", "mon1", "motor", "pdet", "amotor", "apdet">>
+XSus == {{{", ".join('"%s"' % x for x in suspenders)}}}
+SigOfDef == [x \\in XSus |-> "sig" \\o x]
+SusFutsDef == [x \\in XSus |-> <<x \\o "a", x \\o "b", x \\o "c">>]
 SuspPreDef == <<{", ".join(tla_msg(m) for m in pre)}>>
 SuspPostDef == <<{", ".join(tla_msg(m) for m in post)}>>
 ====
@@ -819,7 +822,9 @@ SuspPostDef == <<{", ".join(tla_msg(m) for m in post)}>>
     consts = dict(MC_BASE)
     consts.update({"MaxReq": max_req, "ReqKinds": set(req_kinds), "MaxFaults": max_faults, "FaultKinds": set(fault_kinds),
                    "Decisions": set(decisions), "MaxCalls": max_calls, "MaxUpdates": max_updates, "RecordIntr": record_intr,
-                   "AsyncDevs": set(async_devs)})
+                   "AsyncDevs": set(async_devs), "Suspenders": "<- XSus", "SigOf": "<- SigOfDef", "SusFuts": "<- SusFutsDef",
+                   "MaxSusOps": max_sus_ops,
+                   "FutNames": {"f1", "f2"} | {x + g for x in suspenders for g in "abc"}})
     cfg = write_cfg(sd / f"{name}.cfg", consts, spec="MCSpec", action_constraints=["MCReport"])
     res = run_tlc(name, cfg, spec_dir=sd, workers=workers or int(os.environ.get("VERIF_TLC_WORKERS", 8)), tag=name, timeout=timeout)
     return res, parse_propviol(res.stdout)
